@@ -2,7 +2,7 @@ package props
 
 // churn: traffic that must not matter. Between the first evaluation of a set of held objects
 // (parsed DIDs, policies, selectors, commands, decoded tokens) and their re-evaluation, the
-// process handles a few hundred OTHER, never seen before, inputs of every kind the library
+// process handles some 1500 OTHER, never seen before, inputs of every kind the library
 // interns, compiles or might cache - more of them than a bounded table of any plausible size
 // holds - and a handful of failing calls whose error paths print or build values. A result
 // that lives in a recycled cache slot, in a pooled buffer or behind a stale index changes.
@@ -31,7 +31,7 @@ var churnSerial atomic.Uint64
 // ChurnCalls counts what the churn did (reported through the worker of the caller).
 var ChurnCalls atomic.Int64
 
-func init() { mon.ChurnHook = func() { churn(700) } }
+func init() { mon.ChurnHook = func() { churn(1500) } }
 
 // freshDIDText is the did:key of an Ed25519 public key derived from a serial number (any 32
 // bytes are accepted as an Ed25519 key).
